@@ -8,6 +8,10 @@ Case kinds
   json     one EDS x (properties, lnk, indent): to_dict, from_dict(to_dict); oracle goes through the JSON text
   penman   one EDS x (properties, lnk, indent): to_triples, from_triples(to_triples); oracle goes through PENMAN text
   triples  arbitrary triples -> from_triples (error branches)
+  pentext  an arbitrary (damaged) PENMAN text x {decode, loads, load}: the PenmanError -> PyDelphinException wrappers
+  api      a list of EDS x codec x write path (encode, dumps, dump to handle / str path / Path) x read path (decode,
+           loads, load from StringIO / path / open file) x properties, lnk, show_status x the `indent` argument
+           (None, False, True, 0, 1, 2, 4, -1): the model's API layer (Api.lean) against the public functions
 """
 import dis
 import gc
@@ -17,6 +21,7 @@ import itertools
 import json
 import logging
 import os
+import pathlib
 import re
 import shutil
 import tempfile
@@ -40,6 +45,8 @@ from delphin.lnk import Lnk, LnkError  # noqa: E402
 
 
 logging.getLogger("delphin.codecs.edspenman").setLevel(logging.ERROR)
+for _name in ("pe", "penman", "penman.layout", "penman._parse", "penman.codec"):
+    logging.getLogger(_name).setLevel(logging.ERROR)     # "Missing target / concept" chatter on damaged texts
 
 
 def cps(s):
@@ -89,7 +96,8 @@ def node_of_j(n):
 
 
 def eds_of_j(e):
-    return EDS(uncps(e["top"]), [node_of_j(n) for n in e["nodes"]], identifier=uncps(e["ident"]))
+    # an empty graph is built as users build it, without a node list (`EDS()` / `EDS(top)`: `nodes=None` branch)
+    return EDS(uncps(e["top"]), [node_of_j(n) for n in e["nodes"]] or None, identifier=uncps(e["ident"]))
 
 
 def node_to_j(n):
@@ -128,6 +136,15 @@ def guarded(f):
         if isinstance(ex, PyDelphinException):
             return {"err": "PyDelphinException"}
         raise
+
+
+def guarded_any(f):
+    """for damaged PENMAN texts: the penman library hands over triples with a missing (None) target, on which
+    from_triples fails with AttributeError / TypeError — error branches outside the property, observed by type name"""
+    try:
+        return guarded(f)
+    except Exception as ex:   # noqa: BLE001
+        return {"err": type(ex).__name__}
 
 
 # --------------------------------------------------------------------------- lexical expressibility
@@ -787,6 +804,8 @@ def fixed_cases():
     k2 = je("x", [jn("x", "named", "x", [], [], "Kim")])
     k3 = je("e", [jn("e", "_rain_v_1", "e", [("ARG1", "x")], [("TENSE", "past")], None, L(0, 4)),
                   jn("x", "named", "x", [], [("PERS", "3")], "Kim", L(5, 8))])
+    out.extend(api_cases({"g1": g1, "g2": g2, "g3": g3, "g5": g5, "g7": g7, "g8": g8, "g9": g9, "g13": g13, "k1": k1,
+                          "k3": k3}))
     for g in (g1, g2, g3, g4, g5, g6, g7, g8, g9, g10, g11, g12, g13, c1, c2, c3, c4, c5, c6, c7, c8, k1, k2, k3):
         for o in all_opts():
             out.append({"kind": "native", "eds": g, "opts": o})
@@ -838,7 +857,7 @@ def fixed_cases():
              # line breaks and white space
              "{a:p[]\r\n b:q[]}", "{a:p[]\x0b}", "{a:p[]\x1c}", "{a:\tp[]}", "{a :p []}", "{\u2028a:p[]}", "{a:p[]}\x85{b:q[]}"]
     for t in texts:
-        for api in ("decode", "loads"):
+        for api in ("decode", "loads", "load", "loadpath"):
             out.append({"kind": "parse", "text": cps(t), "api": api})
     trs = [[("a", ":instance", "p"), ("a", ":ARG1", "b"), ("b", ":instance", "q")],
            [("a", ":lnk", '"<0:3>"'), ("a", ":carg", '"K\\"x"'), ("a", ":type", "x"), ("a", ":pers", "3"), ("a", "::X", "a")],
@@ -846,6 +865,14 @@ def fixed_cases():
            [("a", ":carg", "K")], [], [("a", "ARG1", "b")], [("a", ":lnk", '""')], [("a", ":1", "b"), ("a", ":Ab", "c")]]
     for tr in trs:
         out.append({"kind": "triples", "triples": [[cps(a), cps(b), cps(c)] for a, b, c in tr]})
+    ptexts = ["(", "(a / p", ")", "(a / p :ARG1)", "a", "(a / p) (", "", " ", "(a / p :lnk \"<x>\")", "(a / p :ARG1 (b / q)) junk",
+              "(a / p :carg \"K)", "(a / p :ARG1 (b / q)", "(a / p))", "(a / p :carg \"K\\\"x\" :lnk \"<0:3>\" :type x :pers 3)",
+              "(a / p)\n\n(b / q :ARG1-of (c / r))", "# ::id 1\n(a / p)", "(a / p :ARG1 b)\n(", "((a / p))", "(a / p :lnk zz)",
+              "(a / p :carg \"\")", "(a :ARG1 (b / q))", "()", "(a / p / q)", "(a / p :lnk )", "(a / p :carg )", "(a / p :type )",
+              "(a / p :carg:carg \"x\")", "(a /  :carg \" \")"]
+    for t in ptexts:
+        for api in ("decode", "loads", "load", "loadpath"):
+            out.append({"kind": "pentext", "text": cps(t), "api": api})
     return out
 
 
@@ -971,8 +998,103 @@ def pin_lines():
     return lines
 
 
+# --------------------------------------------------------------------------- the public API (kind "api")
+
+API_WRITES = ("encode", "dumps", "dump-handle", "dump-path", "dump-pathobj")
+API_READS = ("decode", "loads", "load-handle", "load-path", "load-fh")
+API_INDENTS = {"native": [None, False, True, 0, 1, 2, 4, -1], "json": [None, False, True, 0, 2, 4],
+               "penman": [None, False, True, 0, 2, -1]}
+API_PLS = [(True, True, False), (True, False, True), (False, True, True), (False, False, False), (True, True, True)]
+MODEL_WRITE = {"encode": "encode", "dumps": "dumps", "dump-handle": "dump", "dump-path": "dump", "dump-pathobj": "dump"}
+MODEL_READ = {"decode": "decode", "loads": "loads", "load-handle": "load", "load-path": "loadpath", "load-fh": "loadpath"}
+
+
+def api_kw(case):
+    kw = dict(properties=case["properties"], lnk=case["lnk"], indent=case["indent"])
+    if case["fmt"] == "native":
+        kw["show_status"] = case["show_status"]
+    return kw
+
+
+def api_write(mod, es, kw, write, tmpdir):
+    """the text a write path produces (for the dump variants: what is in the file afterwards)"""
+    if write == "encode":
+        return mod.encode(es[0], **kw)
+    if write == "dumps":
+        return mod.dumps(es, **kw)
+    if write == "dump-handle":
+        fh = io.StringIO()
+        mod.dump(es, fh, **kw)
+        return fh.getvalue()
+    path = os.path.join(tmpdir, "api-w.txt")
+    mod.dump(es, path if write == "dump-path" else pathlib.Path(path), **kw)
+    with open(path, encoding="utf-8", newline="") as fh:
+        return fh.read()
+
+
+def api_read(mod, text, read, tmpdir):
+    if read == "decode":
+        return mod.decode(text)
+    if read == "loads":
+        return mod.loads(text)
+    if read == "load-handle":
+        return mod.load(io.StringIO(text))
+    path = os.path.join(tmpdir, "api-r.txt")
+    with open(path, "w", encoding="utf-8", newline="") as fh:
+        fh.write(text)
+    if read == "load-path":
+        return mod.load(path)
+    with open(path, encoding="utf-8") as fh:
+        return mod.load(fh)
+
+
+def api_cases(fixed):
+    """deterministic battery: every (write path, read path) pair for every codec, the `indent` values and the option
+    vectors cycling under them (so that every indent value and every option vector meets every write and read path)"""
+    g = fixed
+    L = lambda a, b: {"k": "c", "d": [a, b]}   # noqa: E731
+    # non-ASCII material (a real file is decoded on the way back), an empty graph inside a JSON document
+    u1 = je("e2", [jn("e2", "straße_n_1", "e", [("ARG1", "xσ")], [("TENSE", "past")], "caf\u00e9 ΣΟΦΟΣ ς \U0001F600", L(0, 6)),
+                   jn("xσ", "σοφός_a_1", "x", [], [("PERS", "3")], "ẞ\"ß\\", L(7, 12))])
+    lists = {"native": [[g["g1"], g["g3"], g["g8"], g["g5"], g["g2"]], [g["g9"]], [], [g["k1"], u1, g["k3"], g["g13"]], [u1]],
+             "json": [[g["g1"], g["g8"], g["g2"], g["k1"], u1, g["g13"]], [g["k3"]], [], [g["g8"]]],
+             "penman": [[g["g1"], g["g2"], g["g7"], u1, g["k3"]], [g["k1"]], []]}
+    out = []
+    k = 0
+    for fmt in ("native", "json", "penman"):
+        ind = API_INDENTS[fmt]
+        for docs in lists[fmt]:
+            for w in API_WRITES:
+                if w == "encode" and len(docs) != 1:
+                    continue
+                for r in API_READS:
+                    if r == "decode" and not docs:
+                        continue
+                    if fmt == "json" and (w == "encode") != (r == "decode"):
+                        continue     # a JSON list is not a JSON graph
+                    for _ in range(2 if fmt == "native" else 1):
+                        p_, l_, s_ = API_PLS[(k // 3) % len(API_PLS)]
+                        out.append({"kind": "api", "fmt": fmt, "docs": docs, "properties": p_, "lnk": l_,
+                                    "show_status": s_, "indent": ind[k % len(ind)], "write": w, "read": r})
+                        k += 1
+    return out
+
+
+def pen_canon(x):
+    """PENMAN observations up to node order and key order (the penman library lays the graph out as a tree)"""
+    if isinstance(x, dict) and "nodes" in x and "top" in x:
+        nodes = [dict(n, edges=sorted(n["edges"]), props=sorted(n["props"])) for n in x["nodes"]]
+        return {"top": x["top"], "nodes": sorted(nodes, key=lambda n: n["id"])}
+    if isinstance(x, dict):
+        return {k: pen_canon(v) for k, v in x.items()}
+    if isinstance(x, list):
+        return [pen_canon(v) for v in x]
+    return x
+
+
 class C03(Check):
     pid = "C03"
+    props_modules = ["Verif.C03.Props", "Verif.C03.PropsApi"]
     quick_cases = 3000
     thorough_cases = 30000
     rule = ("distinct (graph, options) cases with at least one node; counted per codec and option vector")
@@ -1042,8 +1164,19 @@ class C03(Check):
                 yield {"kind": "docs", "docs": docs, "opts": rng.choice(opts), "fmt": rng.choice(["native", "native", "json",
                                                                                                   "penman"])}
                 k += 1
-            elif r < 0.85:
+            elif r < 0.845:
                 yield {"kind": "churn", "graphs": churn_graphs(rng), "opts": rng.choice(opts)}
+                k += 1
+            elif r < 0.875:
+                fmt = rng.choice(["native", "native", "json", "penman"])
+                docs = [g] + [gen_eds(rng, False, 4) for _ in range(rng.choice([0, 0, 1, 2, 3]))]
+                if rng.random() < 0.1:
+                    docs = []
+                w = rng.choice([x for x in API_WRITES if x != "encode" or len(docs) == 1])
+                rd = rng.choice([x for x in API_READS if (x != "decode" or docs)
+                                 and (fmt != "json" or (w == "encode") == (x == "decode"))])
+                yield {"kind": "api", "fmt": fmt, "docs": docs, "properties": rng.random() < 0.6, "lnk": rng.random() < 0.6,
+                       "show_status": rng.random() < 0.5, "indent": rng.choice(API_INDENTS[fmt]), "write": w, "read": rd}
                 k += 1
             elif r < 0.98:
                 if rng.random() < 0.7:
@@ -1059,7 +1192,33 @@ class C03(Check):
                     continue
                 for _ in range(rng.choice([1, 1, 2])):
                     text = mutate_text(rng, text)
-                yield {"kind": "parse", "text": cps(text), "api": rng.choice(["decode", "loads"])}
+                yield {"kind": "parse", "text": cps(text), "api": rng.choice(["decode", "loads", "decode", "loads", "load",
+                                                                              "loadpath"])}
+                k += 1
+            elif r < 0.99:
+                e = eds_of_j(g)
+                if not (targets_ok(e) and e.nodes and penman_safe(e)):
+                    continue
+                try:
+                    text = edspenman.dumps([e, eds_of_j(gen_eds(rng, False, 3))][:rng.choice([1, 1, 2])],
+                                           indent=rng.choice([None, True]))
+                except Exception:   # noqa: BLE001
+                    continue
+                pieces = re.findall(r'"(?:[^"\\]|\\.)*"|[()/]|[^\s()/"]+|\s+', text) or [""]
+                for _ in range(rng.choice([1, 1, 2])):
+                    i = rng.randrange(len(pieces))
+                    m = rng.choice(["del", "del", "dup", "ins", "trunc"])
+                    if m == "del":
+                        del pieces[i]
+                    elif m == "dup":
+                        pieces.insert(i, pieces[i])
+                    elif m == "ins":
+                        pieces.insert(i, rng.choice(["(", ")", "/", ":ARG1", '"', " x ", ":lnk \"<1>\""]))
+                    else:
+                        pieces = pieces[:i]
+                    if not pieces:
+                        pieces = [""]
+                yield {"kind": "pentext", "text": cps("".join(pieces)), "api": rng.choice(["decode", "loads", "load", "loadpath"])}
                 k += 1
             else:
                 e = eds_of_j(g)
@@ -1127,6 +1286,10 @@ class C03(Check):
             text = uncps(case["text"])
             if case["api"] == "decode":
                 return guarded(lambda: eds_to_j(edsnative.decode(text)))
+            if case["api"] == "load":
+                return guarded(lambda: [eds_to_j(d) for d in edsnative.load(io.StringIO(text))])
+            if case["api"] == "loadpath":
+                return guarded(lambda: [eds_to_j(d) for d in api_read(edsnative, text, "load-path", self.tmpdir)])
             return guarded(lambda: [eds_to_j(d) for d in edsnative.loads(text)])
         if k == "json":
             e = eds_of_j(case["eds"])
@@ -1141,15 +1304,23 @@ class C03(Check):
                                         if "properties" in nd else None),
                               "carg": cps(nd.get("carg"))})
             back = edsjson.from_dict(d)
-            return {"dict": {"top": cps(d["top"]), "nodes": nodes}, "dec": eds_to_j(back)}
+            nat = guarded(lambda: cps(edsnative.encode(back, properties=case["properties"], lnk=case["lnk"],
+                                                       show_status=True, indent=bool(case["indent"]))))
+            return {"dict": {"top": cps(d["top"]), "nodes": nodes}, "dec": eds_to_j(back), "native": nat}
         if k == "penman":
             e = eds_of_j(case["eds"])
             try:
                 tr = edspenman.to_triples(e, properties=case["properties"], lnk=case["lnk"])
             except KeyError:
                 return {"err": "KeyError"}
+            def native_of_penman():
+                d = edspenman.from_triples(tr)
+                if any(n.predicate is None for n in d.nodes):
+                    return None      # Node(nid, None, …): encode raises a TypeError, outside the model's Node
+                return cps(edsnative.encode(d, properties=case["properties"], lnk=case["lnk"], show_status=True,
+                                            indent=bool(case["indent"])))
             return {"triples": [[cps(a), cps(b), cps(c)] for a, b, c in tr],
-                    "dec": guarded(lambda: pen_obs(edspenman.from_triples(tr)))}
+                    "dec": guarded(lambda: pen_obs(edspenman.from_triples(tr))), "native": guarded(native_of_penman)}
         if k == "triples":
             tr = [(uncps(a), uncps(b), uncps(c)) for a, b, c in case["triples"]]
             return guarded(lambda: pen_obs(edspenman.from_triples(tr)))
@@ -1159,6 +1330,30 @@ class C03(Check):
             text = mod.dumps(es, **fmt_kw(case["fmt"], case["indent"]))
             back = guarded(lambda: len(mod.loads(text)))
             return {"graphs": len(es), "chars_over_target": len(text) > case["target"], "back": back}
+        if k == "pentext":
+            text = uncps(case["text"])
+            rd = {"decode": "decode", "loads": "loads", "load": "load-handle", "loadpath": "load-path"}[case["api"]]
+
+            def pen_read():
+                r = api_read(edspenman, text, rd, self.tmpdir)
+                return pen_obs(r) if rd == "decode" else [pen_obs(d) for d in r]
+            return guarded_any(pen_read)
+        if k == "api":
+            mod = MODS[case["fmt"]]
+            es = [eds_of_j(g) for g in case["docs"]]
+            try:
+                text = api_write(mod, es, api_kw(case), case["write"], self.tmpdir)
+            except KeyError:
+                return {"err": "KeyError"}
+            to_j = pen_obs if case["fmt"] == "penman" else eds_to_j
+
+            def rd():
+                r = api_read(mod, text, case["read"], self.tmpdir)
+                return to_j(r) if case["read"] == "decode" else [to_j(d) for d in r]
+            res = {"dec": guarded(rd)}
+            if case["fmt"] == "native":
+                res["text"] = cps(text)
+            return res
         if k == "churn":
             out = []
             o = case["opts"]
@@ -1200,12 +1395,26 @@ class C03(Check):
             if not all(ascii_cased_only(uncps(t)) for name, t in toks if name == "SYMBOL"):
                 return None
             return {"op": "lextext", "text": case["text"], "api": case["api"]}
+        if k == "api":
+            es = [eds_of_j(g) for g in case["docs"]]
+            fmt = case["fmt"]
+            if fmt == "native" and not all(case_modelled(e) for e in es):
+                return None
+            if fmt == "penman" and not all(self._pen_api_modelled(e) for e in es):
+                return None
+            if fmt == "json" and not all(isinstance(n.id, str) for e in es for n in e.nodes):
+                return None
+            return {"op": "api", "fmt": fmt, "docs": case["docs"], "properties": case["properties"], "lnk": case["lnk"],
+                    "show_status": case["show_status"], "indent": case["indent"], "write": MODEL_WRITE[case["write"]],
+                    "read": MODEL_READ[case["read"]]}
         if k == "json":
-            return {"op": "json", "eds": case["eds"], "properties": case["properties"], "lnk": case["lnk"]}
+            return {"op": "json", "eds": case["eds"], "properties": case["properties"], "lnk": case["lnk"],
+                    "indent": bool(case["indent"])}
         if k == "penman":
             if not case_modelled(eds_of_j(case["eds"]), penman=True):
                 return None
-            return {"op": "penman", "eds": case["eds"], "properties": case["properties"], "lnk": case["lnk"]}
+            return {"op": "penman", "eds": case["eds"], "properties": case["properties"], "lnk": case["lnk"],
+                    "indent": bool(case["indent"])}
         if k == "churn":
             if not all(case_modelled(eds_of_j(g), penman=True) and targets_ok(eds_of_j(g)) for g in case["graphs"]):
                 return None
@@ -1234,6 +1443,12 @@ class C03(Check):
                 return {k: res[k] for k in (("text", "ldec") if tm else ("text",))}
             if not tm:
                 return {k: v for k, v in res.items() if k != "ldec"}
+        if case["kind"] == "json" and isinstance(res, dict) and "native" in res \
+                and not case_modelled(eds_of_j(case["eds"])):
+            # the native text sorts by upper-cased names: outside the model's ASCII case mapping it is left to the oracle
+            return {k: v for k, v in res.items() if k != "native"}
+        if case["kind"] == "api" and isinstance(res, dict) and "text" in res and not text_modelled(uncps(res["text"])):
+            return {"text": res["text"]}
         if case["kind"] == "parse":
             try:
                 toks = lex_tokens(uncps(case["text"]))
@@ -1243,6 +1458,10 @@ class C03(Check):
         return res
 
     def model_compare(self, case, expected, answer):
+        if case.get("kind") == "api" and case.get("fmt") == "penman":
+            expected, answer = pen_canon(expected), pen_canon(answer)
+        if case.get("kind") == "json" and isinstance(expected, dict) and isinstance(answer, dict) and "native" not in expected:
+            answer = {k: v for k, v in answer.items() if k != "native"}
         if isinstance(expected, dict) and "text" in expected and isinstance(answer, dict) and "text" in answer:
             answer = {k: v for k, v in answer.items() if k in expected}
         return super().model_compare(case, expected, answer)
@@ -1258,6 +1477,17 @@ class C03(Check):
         k = case["kind"]
         if long and isinstance(res, dict) and ("err" in res or "err" in (res.get("dec") or {})):
             fail("native: a long document / graph cannot be written and read back", repr(res.get("err") or res["dec"]))
+        for g in ([case["eds"]] if k in ("native", "json", "penman") else case["docs"] if k in ("docs", "api") else []):
+            # the objects the codecs are handed hold exactly what the case says (constructors, Lnk factories)
+            want = dict(g, nodes=[dict(n, edges=[list(x) for x in dict((tuple(k_), v) for k_, v in n["edges"]).items()],
+                                       props=[list(x) for x in dict((tuple(k_), v) for k_, v in n["props"]).items()])
+                                  for n in g["nodes"]])
+            want = json.loads(json.dumps(want))
+            got = json.loads(json.dumps(eds_to_j(eds_of_j(g))))
+            if got != want:
+                fail("constructors: an EDS / Node / Lnk object does not hold what it was given",
+                     repr([kk for kk in want if want[kk] != got.get(kk)]))
+                break
         if k == "native":
             self._oracle_native(case, fail)
         elif k == "docs":
@@ -1273,7 +1503,72 @@ class C03(Check):
             self._oracle_longtext(case, fail)
         elif k == "churn":
             self._oracle_churn(case, fail)
+        elif k == "api":
+            self._oracle_api(case, fail)
+        elif k == "pentext":
+            self._oracle_pentext(case, res, fail)
         return fails
+
+    def _oracle_pentext(self, case, res, fail):
+        """what the penman library cannot read is reported as PyDelphinException by every read path; what it can read
+        comes back as from_triples of its triples"""
+        text = uncps(case["text"])
+        single = case["api"] == "decode"
+        try:
+            gs = [penman.decode(text)] if single else penman.loads(text)
+        except penman.PenmanError:
+            if res != {"err": "PyDelphinException"}:
+                fail("penman: a text the penman library rejects is not reported as PyDelphinException", repr((text, res)))
+            return
+        want = guarded_any(lambda: [pen_obs(edspenman.from_triples(g.triples)) for g in gs])
+        if "ok" in want and single:
+            want = {"ok": want["ok"][0]}
+        if want != res:
+            fail("penman: a read path does not return from_triples of what the penman library read", repr((text, case["api"])))
+
+    def _oracle_api(self, case, fail):
+        """every write path x read path x `indent` value returns what the single API with default layout returns"""
+        fmt = case["fmt"]
+        mod = MODS[fmt]
+        es = [eds_of_j(g) for g in case["docs"]]
+        kw = api_kw(case)
+        if fmt == "native":
+            o = {"properties": case["properties"], "lnk": case["lnk"], "show_status": case["show_status"], "indent": True}
+            if not all(self._in_scope(e, o) for e in es):
+                return
+        elif fmt == "json":
+            if not all(ids_distinct(e) and targets_ok(e) for e in es):
+                return
+        else:
+            if not all(self._pen_scope(e) and e.nodes and e.top in {n.id for n in e.nodes}
+                       and not pred_id_collision(e) for e in es):
+                return
+        skw = {k: v for k, v in kw.items() if k != "indent"}
+        tag = "%s: %s -> %s" % (fmt, case["write"], case["read"])
+        try:
+            singles = [show(mod.decode(mod.encode(e, **skw))) for e in es]
+            text = api_write(mod, es, kw, case["write"], self.tmpdir)
+            back = api_read(mod, text, case["read"], self.tmpdir)
+        except Exception as ex:   # noqa: BLE001
+            fail("api: a write path / read path of the codec raises on a graph the single API handles",
+                 "%s %s indent=%r" % (tag, type(ex).__name__, case["indent"]))
+            return
+        got = [show(back)] if case["read"] == "decode" else [show(d) for d in back]
+        want = singles[:1] if case["read"] == "decode" else singles
+        if fmt == "penman":
+            def norm(x):
+                return (x[0], x[1], sorted(x[2], key=lambda n: n[0]))
+            got, want = [norm(x) for x in got], [norm(x) for x in want]
+        if got != want:
+            fail("api: a write path / read path / indent value gives other graphs than the single API",
+                 "%s indent=%r p=%r l=%r" % (tag, case["indent"], case["properties"], case["lnk"]))
+        if case["write"].startswith("dump-") and fmt != "json" and not text.endswith("\n"):
+            fail("api: dump does not end the file with a line feed", tag)
+        if fmt == "native":
+            flag = not (case["indent"] is None or case["indent"] is False)
+            ref = ("\n\n" if flag else " ").join(edsnative.encode(e, indent=flag, **skw) for e in es)
+            if text != ref + ("\n" if case["write"].startswith("dump-") else ""):
+                fail("api: the text of a write path is not the joined single encodings", "%s indent=%r" % (tag, case["indent"]))
 
     def _oracle_longtext(self, case, fail):
         fmt = case["fmt"]
@@ -1626,6 +1921,13 @@ class C03(Check):
                 fail("json: native re-encoding of the decoded graph differs from the native text of the graph",
                      repr((edsnative.encode(d, **opts_kw(o)), edsnative.encode(e2, **opts_kw(o)))))
 
+    @classmethod
+    def _pen_api_modelled(cls, e):
+        """the PENMAN text round trip of this graph is what the triple-level model says (the penman library is an
+        identity parameter only inside the codec's scope, and not for the F40 class)"""
+        return bool(cls._pen_scope(e) and e.nodes and e.top in {n.id for n in e.nodes} and not pred_id_collision(e)
+                    and case_modelled(e, penman=True))
+
     @staticmethod
     def _pen_scope(e):
         return bool(ids_distinct(e) and targets_ok(e) and penman_safe(e) and types_in_scope(e)
@@ -1759,6 +2061,12 @@ class C03(Check):
         if k0 == "churn":
             inc("churn:nodes:%d" % len(case["graphs"][0]["nodes"]))
             return
+        if k0 == "api":
+            inc("api:%s:%s->%s" % (case["fmt"], case["write"], case["read"]))
+            inc("api:%s:indent=%r" % (case["fmt"], case["indent"]))
+            inc("api:graphs:%d" % min(4, len(case["docs"])))
+            inc("api:p%d l%d" % (case["properties"], case["lnk"]))
+            return
         k = k0
         if k in ("native", "json", "penman"):
             g = case["eds"]
@@ -1800,11 +2108,15 @@ class C03(Check):
             if k == "penman":
                 inc("penman-in-scope:%s" % bool(self._pen_scope(e) and e.nodes and e.top in {x.id for x in e.nodes}))
         elif k == "parse":
+            inc("parse-api:" + case["api"])
             if isinstance(res, dict):
                 inc("parse:" + ("ok" if "ok" in res else res.get("err", "?")))
         elif k == "triples":
             if isinstance(res, dict):
                 inc("triples:" + ("ok" if "ok" in res else res.get("err", "?")))
+        elif k == "pentext":
+            if isinstance(res, dict):
+                inc("pentext:%s:%s" % (case["api"], "ok" if "ok" in res else res.get("err", "?")))
         elif k == "docs":
             inc("docs:%s:%d" % (case.get("fmt", "native"), min(4, len(case["docs"]))))
 
